@@ -51,7 +51,9 @@ var (
 
 var nameAlphabet = []string{"alice", "Bob", "user-1", "a b", "per%cent", "sl/ash", "ünï", "system:admin", "x:y", "UP", "q?x=1", "a,b", "system:anonymous"}
 var groupAlphabet = []string{"dev", "system:masters", "Ops Team", "g%2F", "système", "system:authenticated", "system:unauthenticated", "a/b"}
-var extraKeys = []string{"scopes", "Scopes", "acme.io/team", "k%y", "k y", "UPPER", "x"}
+// keys with a literal '%' followed by two hex digits matter: the upstream percent-decodes the header name, so the
+// gateway has to escape the '%' itself
+var extraKeys = []string{"scopes", "Scopes", "acme.io/team", "k%y", "k y", "UPPER", "x", "acme.io%2fteam", "50%25", "%41b", "x/y%2fz", "a%2Fb"}
 var extraVals = []string{"v1", "V 2", "a%b", "é", "view,edit"}
 
 func genIdentity(t *rapid.T) gwbox.Identity {
@@ -206,7 +208,7 @@ func lowerKeys(m map[string][]string) map[string][]string {
 var implied = map[string]bool{"system:authenticated": true, "system:unauthenticated": true, "system:serviceaccounts": true}
 
 func TestPropIdentityPropagation(t *testing.T) {
-	sub := stats.NewSub("identity-propagation", "rapid: authenticated identity (name, 0-4 groups, 0-3 extra keys x 1-2 values with %, /, blanks, UTF-8, upper case), client header set (Authorization valid / second value / other scheme / unknown token / none; Impersonate-User 0-2 values incl. empty first value and service-account form; Impersonate-Group 0-3; Impersonate-Extra-<key> escaped or raw; other Impersonate-* names) written in lower / upper / mixed case on a real HTTP/1.1 connection, and a deny set for the authorizer; oracle: reference impersonation semantics decide 401 / >=400 malformed / 403 / forwarded, and for forwarded requests the identity the stub upstream decodes == the effective identity, Authorization == exactly the gateway credential, no Impersonate-* header other than those generated from the effective identity; non-trivial = the client sent an identity-bearing header other than one valid Authorization, or the identity has extras / non-alphanumeric bytes; distinct by FNV-64 of (identity, headers, deny set)")
+	sub := stats.NewSub("identity-propagation", "rapid: authenticated identity (name, 0-4 groups, 0-3 extra keys x 1-2 values with %, /, blanks, UTF-8, upper case, literal %XX sequences), client header set (Authorization valid / second value / other scheme / unknown token / none; Impersonate-User 0-2 values incl. empty first value and service-account form; Impersonate-Group 0-3; Impersonate-Extra-<key> escaped or raw; other Impersonate-* names) written in lower / upper / mixed case on a real HTTP/1.1 connection, and a deny set for the authorizer; oracle: reference impersonation semantics decide 401 / >=400 malformed / 403 / forwarded, and for forwarded requests the identity the stub upstream decodes == the effective identity, Authorization == exactly the gateway credential, no Impersonate-* header other than those generated from the effective identity; non-trivial = the client sent an identity-bearing header other than one valid Authorization, or the identity has extras / non-alphanumeric bytes; distinct by FNV-64 of (identity, headers, deny set)")
 	stats.Check(t, stats.N(8000, 60000), func(t *rapid.T) {
 		id := genIdentity(t)
 		cr := genClientHeaders(t)
